@@ -71,19 +71,21 @@ def _key(o, beh):
 def _replay_part(ctx, part, probe, tag):
     p = ctx.wpath("ledger-beh-%s.ndjson" % tag)
     write_ndjson(p, part)
-    rc, out = vh(BIN, ["ledger", "replay", "probe=%d" % (1 if probe else 0)], stdin_path=p, timeout=7200)
+    rc, out = vh(BIN, ["ledger", "replay", "probe=%d" % (1 if probe else 0)], stdin_path=p, timeout=7200, check=False)
     _rm(p)
     mism, stats, done = [], {}, None
     for line in out.splitlines():
         o = json.loads(line)
+        if "toolerror" in o:          # the harness could not build / prepare something: a defect of the machinery, not of the engine
+            raise ToolError("harness: " + o["toolerror"])
         if "mismatch" in o:
             mism.append(o)
         elif "stats" in o:
             stats = o["stats"]
         elif "done" in o:
             done = o
-    if done is None or done["done"] != len(part):
-        raise ToolError("ledger replay did not complete")
+    if rc != 0 or done is None or done["done"] != len(part):
+        raise ToolError("ledger replay did not complete (rc=%s)" % rc)
     return mism, stats, done
 
 
